@@ -308,14 +308,8 @@ def nibabel_image_to_precomputed(img,
                           chunk_transformer=chunk_transformer)
 
 
-def volume_file_to_precomputed(volume_filename,
-                               dest_url,
-                               ignore_scaling=False,
-                               input_min=None,
-                               input_max=None,
-                               load_full_volume=True,
-                               options={}):
-    img = nibabel.load(volume_filename)
+def unpack_rgb_image(img):
+    """Turn an RGB (structured dtype) image into a 4-D image."""
     dtype, is_rgb = neuroglancer_scripts.data_types.get_dtype_from_vol(
                         img.dataobj)
     if is_rgb:
@@ -324,6 +318,17 @@ def volume_file_to_precomputed(volume_filename,
         new_dataobj = np.stack([proxy[name] for name in proxy.dtype.names],
                                axis=-1)
         img = nibabel.Nifti1Image(new_dataobj, img.affine)
+    return img
+
+
+def volume_file_to_precomputed(volume_filename,
+                               dest_url,
+                               ignore_scaling=False,
+                               input_min=None,
+                               input_max=None,
+                               load_full_volume=True,
+                               options={}):
+    img = unpack_rgb_image(nibabel.load(volume_filename))
 
     accessor = neuroglancer_scripts.accessor.get_accessor_for_url(
         dest_url, options
